@@ -2,6 +2,7 @@
 from __future__ import annotations
 
 import json
+import math
 import random
 
 import numpy as np
@@ -203,8 +204,16 @@ def task(p, cse, key, k, tier, seed):
         # replay helpers: the cut symbols are functions of the inputs, so candidates from the solver are re-evaluated end to end
         def mk_replay(what, i, j=None):
             def replay(e):
-                got = float_update(p, cse, key, e, k)
                 sp = spec_float(p, key, e)
+                if k is not None:
+                    # these obligations are about the ACCEPT path of the innovation filter (their path condition mentions
+                    # the inverse cut symbols, which a candidate cannot be filtered on): a candidate whose reading the
+                    # specification itself discards is not a candidate for them
+                    nis = float((sp["innov"].reshape(1, -1) @ np.linalg.inv(sp["S"]) @ sp["innov"].reshape(-1, 1)).item())
+                    thr = float(k) * math.sqrt(2 * len(sp["innov"])) + len(sp["innov"])
+                    if not nis < thr * (1 - 1e-9):
+                        return None
+                got = float_update(p, cse, key, e, k)
                 if j is None:
                     return {"impl": float(got[what][i]), "spec": float(sp[what][i])}
                 return {"impl": float(got[what][i, j]), "spec": float(sp[what][i, j])}
